@@ -1,14 +1,16 @@
 ---- MODULE CredsMatrixMC ----
-(* Stage (a) for C58: TLC enumerates the whole matrix and checks that the reference decision
-   table satisfies the property statement; the states of this model are also the cases that the
-   driver executes (exported through the state-graph dump). *)
+(* Stage (a) for C58: TLC enumerates the whole matrix of per-connection histories and checks that
+   the reference decision table satisfies the property statement on every RPC of every history; the
+   states of this model are also the cases that the driver executes (exported through the
+   state-graph dump). *)
 EXTENDS CredsMatrix, TLC
 VARIABLES cs
 vars == <<cs>>
-Init == cs \in Cases
+Init == cs \in HCases
 Next == UNCHANGED vars
-I_Type      == Ref(cs) \in Outcomes
-I_NoLeak    == NoLeak(cs, Ref(cs))
-I_MustFail  == MustFail(cs, Ref(cs))
-I_Delivered == Delivered(cs, Ref(cs))
+Rpc(i) == At(cs, i)
+I_Type      == \A i \in 1..Len(cs.calls) : Rpc(i) \in Cases /\ Ref(Rpc(i)) \in Outcomes
+I_NoLeak    == \A i \in 1..Len(cs.calls) : NoLeak(Rpc(i), Ref(Rpc(i)))
+I_MustFail  == \A i \in 1..Len(cs.calls) : MustFail(Rpc(i), Ref(Rpc(i)))
+I_Delivered == \A i \in 1..Len(cs.calls) : Delivered(Rpc(i), Ref(Rpc(i)))
 ====
